@@ -34,6 +34,9 @@ def generate(prop, seed, tier='quick', sub='crash'):
     pool = make_pool_specs(rng, n_small=8)
     # keep objects small: one image per boundary is copied
     pool = [[k, min(n, 5000), s] for k, n, s in pool]
+    if rng.random() < 0.3:
+        # one object larger than the 8 KiB buffer of Python's BufferedWriter (its writes bypass the buffer)
+        pool.append([rng.choice(['rand', 'text', 'mixed']), rng.choice([8193, 9000, 20000]), rng.randrange(1 << 30)])
     config = make_config(rng)
     config_b = make_config(rng)
     opts = gen.make_opts(rng, len(pool))
@@ -639,6 +642,28 @@ def run_faulted(lib, world, side, case, pre, maybe, rng, probes, faults):  # pyl
                     raise Violation('fault-' + exc.klass, exc.detail) from None
             behaviours.add(f"{victim['op']}|{kshort}|{fault}|raised:{type(raised).__name__}|{state_digest(state)}")
             # (3) fault cleared: remove stale locks, fresh handle re-runs the victim
+            if repack and raised is not None:
+                # An interrupted repack may need manual repair, so the re-run is allowed to fail loudly - but trying it
+                # must not make anything worse: the same on-disk contract holds after the attempt.
+                packdir = os.path.join(fside.folder, 'packs')
+                for name in os.listdir(packdir):
+                    if name.endswith('.lock'):
+                        os.remove(os.path.join(packdir, name))
+                retry = lib.Container(fside.folder)
+                try:
+                    from disk_objectstore.utils import CompressMode  # pylint: disable=import-outside-toplevel
+
+                    retry.repack(compress_mode=CompressMode(victim.get('mode', 'keep')))
+                    probes['repack_retry_completed'] = probes.get('repack_retry_completed', 0) + 1
+                except Exception:  # pylint: disable=broad-except
+                    probes['repack_retry_refused'] = probes.get('repack_retry_refused', 0) + 1
+                finally:
+                    retry.close()
+                with SIM.quiet():
+                    try:
+                        image_oracle(lib, fside.folder, pre, maybe, victim['op'], label + ': after re-running repack on the interrupted state')
+                    except Violation as exc:
+                        raise Violation('rerun-' + exc.klass, exc.detail) from None
             if not (repack and raised is not None):
                 packdir = os.path.join(fside.folder, 'packs')
                 for name in os.listdir(packdir):
